@@ -241,7 +241,7 @@ def _polled_read_order(test: ast.expr, f: Func, pf: PoolFacts) -> List[str]:
 def r4_tag(prog, rep: Report, pf: PoolFacts):
     rep.rule("C01.R4", "tag pass-through: the worker puts (first component of the work item unmodified, order-preserving "
              "unfiltered map of the functor over its second component) on the results queue", floor=1)
-    run_ = prog.method(pf.worker, "run")
+    run_ = prog.method_view(pf.worker, "run") or prog.method(pf.worker, "run")     # private helpers inlined
     sn = run_.self_name
 
     def work_get(c):
